@@ -67,6 +67,11 @@ def gen_case(rng):
                 "prefix": rng.choice(["job", "x" + str(g)]),
                 "opts": opts,
                 "dsub": rng.random() < 0.8,
+                # optional submitter settings incl. the ones whose None is meaningful (None = monitoring disabled)
+                "rm_interval": rng.choice([None, None, 5, 10, 30]),
+                "rm_stats": rng.choice([None, {"cpu": True, "memory": False, "disk": True, "network": False, "process": True}]),
+                "dry_run": False,
+                "node_setup_script": rng.choice([None, None, "setup.sh"]),
             }
         )
     jobs = []
@@ -137,6 +142,9 @@ def build(case):
             verbose=g["verbose"],
             distributed_submitter=g["dsub"],
             resource_monitor_type="none",
+            resource_monitor_interval=g["rm_interval"],
+            node_setup_script=g["node_setup_script"],
+            **({"resource_monitor_stats": g["rm_stats"]} if g["rm_stats"] else {}),
         )
         sps.append(sp)
         if case["use_default"]:
@@ -200,6 +208,28 @@ def check_roundtrip(case, cfg, loaded, viol):
     gb = [norm(g.dict()) for g in loaded.submission_groups]
     if ga != gb:
         viol("submission-groups", f"submission groups differ after the round trip: {ga} -> {gb}")
+    # field by field against what was GENERATED (dict() of both sides could hide a value that serialization drops)
+    gen = {g["name"]: g for g in case["groups"]}
+    for grp in loaded.submission_groups:
+        g = gen.get(grp.name)
+        if g is None:
+            viol("submission-groups", f"group {grp.name} appeared after the round trip")
+            continue
+        sp = grp.submitter_params
+        want = {"per_node_batch_size": g["batch"], "time_based_batching": g["tb"], "num_parallel_processes_per_node": g["procs"], "try_add_blocked_jobs": g["try_add"],
+                "max_nodes": case["max_nodes"], "poll_interval": case["poll"], "verbose": g["verbose"], "distributed_submitter": g["dsub"], "resource_monitor_interval": g["rm_interval"],
+                "node_setup_script": g["node_setup_script"], "generate_reports": False, "dry_run": False}
+        got = {k: getattr(sp, k) for k in want}
+        if got != want:
+            diff = {k: (want[k], got[k]) for k in want if want[k] != got[k]}
+            viol("group-fields", f"group {grp.name}: generated vs reloaded submitter parameters {diff}")
+        if g["rm_stats"] and norm(sp.resource_monitor_stats.dict()) != dict(g["rm_stats"], include_child_processes=True, recurse_child_processes=False):
+            viol("group-fields", f"group {grp.name}: resource_monitor_stats {sp.resource_monitor_stats.dict()} != generated {g['rm_stats']}")
+        hp = sp.hpc_config
+        wanth = dict({"account": g["account"], "walltime": g["wall"]}, **g["opts"])
+        goth = {k: getattr(hp.hpc, k) for k in wanth}
+        if goth != wanth or hp.job_prefix != g["prefix"]:
+            viol("group-fields", f"group {grp.name}: HPC parameters {goth} prefix {hp.job_prefix} != generated {wanth} prefix {g['prefix']}")
     sa, sb = norm(cfg.serialize()), norm(loaded.serialize())
     if sa != sb:
         keys = [k for k in sa if sa.get(k) != sb.get(k)]
